@@ -101,7 +101,7 @@ func rulesSamCodec(c *Ctx, r *Report) {
 	r.check(okNL && lastUnconditional && len(calls) == 3, "1L", where, "one line per record", c.pos(last.call.Pos()),
 		"the only newline is the last write, which every successful return passes", "a newline is written elsewhere than at the very end, or a successful return skips it: a record does not occupy exactly one line")
 	// tags: each element of tagsToText(s.Tags), prefixed by TAB
-	t2t := c.fn("formats/sam", "tagsToText")
+	t2t := c.role("sam.tagsToText")
 	okTagArg := false
 	if okTags && t2t != nil {
 		for _, fc := range calls[1 : len(calls)-1] {
@@ -116,7 +116,7 @@ func rulesSamCodec(c *Ctx, r *Report) {
 	r.check(okTags && okTagArg, "SAM-COL", where, "tags follow, TAB-separated", c.pos(w.Pos()), "every element of tagsToText(s.Tags) is written as TAB + text after the 11 columns", "the optional tags are not written as TAB-prefixed elements of tagsToText(s.Tags)")
 	rulesSamParser(c, r)
 	rulesTagTable(c, r)
-	rulesMapOrderFn(c, r, "formats/sam", "tagsToText")
+	rulesMapOrderFn(c, r, c.role("sam.tagsToText"), "formats/sam tag list")
 	rulesNoCsv(c, r, "formats/sam", []string{"ReaderHeader", "Reader", "File", "FileHeader"}, "(*SAM).Write")
 	rulesWholeLines(c, r, "formats/sam")
 	nl := rulesLineChain(c, r, "formats/sam")
@@ -126,7 +126,7 @@ func rulesSamCodec(c *Ctx, r *Report) {
 
 // rulesSamParser: parser column table.
 func rulesSamParser(c *Ctx, r *Report) {
-	f := c.fn("formats/sam", "parseLine")
+	f := c.role("sam.parseLine")
 	where := "formats/sam.parseLine"
 	if f == nil || len(f.Params) != 1 {
 		r.undecided("SAM-COL", where, "anchor", "", "parseLine(line) not found")
@@ -187,7 +187,7 @@ func rulesSamParser(c *Ctx, r *Report) {
 		}
 	})
 	// parseInts(snm.At(line, lit), ptrs...)
-	pi := c.fn("formats/sam", "parseInts")
+	pi := c.role("sam.parseInts")
 	okPI, okAt := false, false
 	if pi != nil {
 		for _, call := range staticCallsTo(f, pi) {
@@ -227,7 +227,7 @@ func rulesSamParser(c *Ctx, r *Report) {
 			fmt.Sprintf("column %d of a line is stored into %s, but the writer prints %s there", k+1, got, samFields[k]))
 	}
 	// tags: parseTags(line[11:]) into Tags
-	pt := c.fn("formats/sam", "parseTags")
+	pt := c.role("sam.parseTags")
 	okT := false
 	if pt != nil {
 		for _, call := range staticCallsTo(f, pt) {
@@ -299,8 +299,8 @@ func atIndexesByArg(c *Ctx, f *ssa.Function) bool {
 
 // rulesTagTable (G2): writer type->letter, reader letter->type agree; value codecs are inverse pairs.
 func rulesTagTable(c *Ctx, r *Report) {
-	wf := c.fn("formats/sam", "tagToText")
-	rf := c.fn("formats/sam", "parseTags")
+	wf := c.role("sam.tagToText")
+	rf := c.role("sam.parseTags")
 	if wf == nil || rf == nil {
 		r.undecided("G2", "formats/sam", "anchor", "", "tagToText or parseTags not found")
 		return
@@ -481,9 +481,12 @@ func rulesTagTable(c *Ctx, r *Report) {
 }
 
 // rulesMapOrderFn (MO): in fn, a slice filled while ranging over a map passes a sort before it is used otherwise.
-func rulesMapOrderFn(c *Ctx, r *Report, rel, name string) {
-	f := c.fn(rel, name)
-	where := rel + "." + name
+func rulesMapOrderFn(c *Ctx, r *Report, f *ssa.Function, what string) {
+	where := what
+	name := what
+	if f != nil {
+		where = fname(f)
+	}
 	if f == nil {
 		r.undecided("MO", where, "anchor", "", "function not found")
 		return
